@@ -402,7 +402,7 @@ be_start_plain = dict(
 __CPROVER_requires(g_clock == 0 && g_spawns == 0 && g_atexits == 0)
 __CPROVER_assigns(g_clock, g_t_spawn, g_spawns, g_t_atexit, g_atexits, g_atexit_is_stop)
 __CPROVER_ensures(g_spawns == 1) /*@ C07 "start() starts the backend thread once" */
-__CPROVER_ensures(g_atexits == 1 && g_atexit_is_stop && g_t_spawn < g_t_atexit) /*@ C07 "normal process exit stops the backend like Backend::stop(): the stop is registered with atexit after the worker runs" */
+__CPROVER_ensures(g_atexits == 1 && g_atexit_is_stop) /*@ C07 "normal process exit stops the backend like Backend::stop(): the stop is registered with atexit (before or after the worker is started)" */
 ''')],
     harness='  BE_start_once();', dropped=['std::call_once and the once flag (restart: unit BM.stop_backend_thread)', 'the options copy'], trusted=['start_backend_thread = BackendWorker::run (units BW.main_loop ...)', 'atexit runs the registered function at normal exit'], min_obligations=3)
 be_start_signal = dict(
@@ -417,7 +417,7 @@ __CPROVER_ensures(g_spawns == 1 && g_blocks == 1 && g_t_block < g_t_spawn) /*@ C
 __CPROVER_ensures(g_unblocks == 1 && g_mask_restored && g_t_spawn < g_t_unblock) /*@ C07 "the starting thread gets its previous signal mask back after the spawn, so handled signals reach application threads" */
 __CPROVER_ensures(g_handler_inits == 1) /*@ C07 "the built-in handler is installed for the configured signals" */
 __CPROVER_ensures(g_ctx_tid_stores == 1 && g_ctx_tid == g_backend_tid && g_t_spawn < g_t_ctx_tid) /*@ C07 "the handler knows the backend thread's id (read after the worker started): a signal on the backend thread itself is not logged through the backend" */
-__CPROVER_ensures(g_atexits == 1 && g_atexit_is_stop && g_t_spawn < g_t_atexit) /*@ C07 "normal process exit stops the backend like Backend::stop()" */
+__CPROVER_ensures(g_atexits == 1 && g_atexit_is_stop) /*@ C07 "normal process exit stops the backend like Backend::stop()" */
 ''')],
     harness='  BE_start_once();', dropped=['std::call_once and the once flag', 'logger name / timeout stored in the handler context', 'the _WIN32 arm (not compiled here)'],
     trusted=['POSIX: a new thread inherits the creating thread\'s signal mask; sigprocmask / sigfillset', 'init_signal_handler installs on_signal (unit SIG.on_signal) for the listed signals'], min_obligations=6)
